@@ -265,7 +265,7 @@ func (m *LinearBlockMetadata) VisitAllRegions(handleBlock func(handle BlockAlloc
 
 		for lastOffset < freeSpaceSecondToFirstEnd {
 			// Find the next taken allocation or move nextAllocIndex to the end
-			for nextAllocSecondIndex < len(secondVector) && secondVector[nextAllocSecondIndex].UserData == nil {
+			for nextAllocSecondIndex < len(secondVector) && secondVector[nextAllocSecondIndex].Type == 0 {
 				nextAllocSecondIndex++
 			}
 
@@ -317,7 +317,7 @@ func (m *LinearBlockMetadata) VisitAllRegions(handleBlock func(handle BlockAlloc
 
 	for lastOffset < freeSpaceFirstToSecondEnd {
 		// Find the next taken allocation or move nextAllocIndex to the end
-		for nextAllocFirstIndex < len(firstVector) && firstVector[nextAllocFirstIndex].UserData == nil {
+		for nextAllocFirstIndex < len(firstVector) && firstVector[nextAllocFirstIndex].Type == 0 {
 			nextAllocFirstIndex++
 		}
 
@@ -358,7 +358,7 @@ func (m *LinearBlockMetadata) VisitAllRegions(handleBlock func(handle BlockAlloc
 		nextAllocSecondIndex := len(secondVector) - 1
 		for lastOffset < size {
 			// Find the next taken allocation or move nextAllocIndex to the end
-			for nextAllocSecondIndex >= 0 && secondVector[nextAllocSecondIndex].UserData == nil {
+			for nextAllocSecondIndex >= 0 && secondVector[nextAllocSecondIndex].Type == 0 {
 				nextAllocSecondIndex--
 			}
 
